@@ -101,8 +101,19 @@ extern int mpt_queue_recv(MPT_STRUCT(decode_queue) *qu)
 	if (mpt_qpre(&qu->data, max) < 0) {
 		return MPT_ERROR(MissingBuffer);
 	}
-	/* correct data area offsets */
-	qu->_state.data.pos += max;
+	/* move decoded message part to start of new space,
+	 * target space grows by distance to remaining encoded data */
+	if ((len = qu->_state.data.len)) {
+		uint8_t *base = qu->data.base;
+		size_t to, from;
+		to = (qu->data.off + qu->_state.data.pos) % qu->data.max;
+		from = (to + max) % qu->data.max;
+		while (len--) {
+			base[to] = base[from];
+			if (++to == qu->data.max) to = 0;
+			if (++from == qu->data.max) from = 0;
+		}
+	}
 	qu->_state.curr += max;
 	
 	/* retry with bigger prefix space */
